@@ -316,6 +316,58 @@ MALFORMED = ["job-typo", "job-ragged", "job-machine-out-of-range", "job-negative
              "init-job-unknown-location", "no-specification", "no-instance-config"]
 
 
+def c06_tree_scenario(jobs, tag, cfgseed=0):
+    """a tiny classic instance (every job visits every machine once) for the exhaustive decision tree"""
+    nm = len(jobs[0])
+    head = "|".join(f"(m{i},t)" for i in range(nm))
+    rows = "".join(f"j{j}|" + " ".join(f"({m},{d})" for m, d in ops) + "\n" for j, ops in enumerate(jobs))
+    doc = {"title": "InstanceConfig", "instance_config": {"description": "c06 tree", "instance": {
+        "description": f"{len(jobs)}x{nm}", "specification": head + "\n" + rows}}}
+    rnd = random.Random(cfgseed)
+    cfg = {"allow_early": True, "joker": 5, "trunc_active": False, "obs": "BinaryActionObservationFactory", "sparse": 1,
+           "dense": 0.001, "trunc": 0}
+    if cfgseed % 3 == 1:
+        cfg["allow_early"] = False
+    return {"id": f"c06tree-{tag}", "family": "c06tree", "c06tree": [[list(o) for o in j] for j in jobs], "seed": 0,
+            "dsl": yaml.safe_dump(doc, sort_keys=False), "cfg": cfg, "policy": {"kind": "accept", "p": 1, "seed": rnd.randrange(1 << 20)},
+            "probes": {}, "meta": {"family": "c06tree"}, "tree_cap": 12000}
+
+
+def c06_tree_stream(seed, tier):
+    """quick: every 2x2 instance with durations in {1,2} (64) plus random 2x3/3x2/3x3; thorough: every 2x2 with
+    durations in {1,2,3} (324), every 2x3 and 3x2 with durations in {1,2}, and many random 3x3"""
+    import itertools
+    out = []
+    durs = (1, 2) if tier == "quick" else (1, 2, 3)
+    for r0, r1 in itertools.product(((0, 1), (1, 0)), repeat=2):
+        for d in itertools.product(durs, repeat=4):
+            jobs = [[(r0[0], d[0]), (r0[1], d[1])], [(r1[0], d[2]), (r1[1], d[3])]]
+            out.append(c06_tree_scenario(jobs, f"2x2-{r0}{r1}{d}".replace(" ", ""), len(out)))
+    rnd = random.Random(seed * 31 + 5)
+    shapes = [(2, 3), (3, 2)] if tier == "quick" else [(2, 3), (3, 2), (3, 3), (3, 3), (4, 2), (2, 4)]
+    n = 16 if tier == "quick" else 240
+    for i in range(n):
+        nj, nm = shapes[i % len(shapes)]
+        jobs = []
+        for j in range(nj):
+            route = list(range(nm))
+            rnd.shuffle(route)
+            jobs.append([(m, rnd.choice((1, 2, 3) if rnd.random() < 0.8 else (1, 1, 2, 5))) for m in route])
+        out.append(c06_tree_scenario(jobs, f"r{seed}-{i}", i))
+    if tier == "thorough":
+        for x in out:
+            x["tree_cap"] = 40000
+        for nj, nm in ((2, 3), (3, 2)):
+            routes = list(itertools.permutations(range(nm)))
+            for rs in itertools.product(routes, repeat=nj):
+                if rnd.random() < 0.5:
+                    continue
+                for k in range(4):
+                    jobs = [[(m, rnd.choice((1, 2))) for m in r] for r in rs]
+                    out.append(c06_tree_scenario(jobs, f"e{nj}x{nm}-{len(out)}", k))
+    return out
+
+
 def gen_malformed(seed, kind=None):
     """a valid generated document with exactly one defect of a named class (C16: must be rejected
     with one of the library's own error types)"""
